@@ -42,7 +42,7 @@ def isInfix (needle : List Char) : List Char → Bool
 namespace Value
 
 /-- `Value::get_attr`: linear scan up to the cutoff, hash lookup with `Key::Str(attr)` beyond. -/
-def getAttr (H : List HashTok → Nat) (v : Value) (attr : List Char) : Option Value :=
+def getAttrH (H : List HashTok → Nat) (v : Value) (attr : List Char) : Option Value :=
   match v with
   | .map m =>
     if m.length ≤ Gen.ATTR_SCAN_CUTOFF then Map.scanAttr attr m
@@ -57,13 +57,13 @@ inductive ItemRes where
 
 /-- `Value::get_item`, map arm (the array and string arms are C14's). -/
 def getItemMap (H : List HashTok → Nat) (m : List (Key × Value)) (item : Value) : ItemRes :=
-  match item.asKey with
+  match item.asKeyK with
   | some k => .ok ((Map.hashGet H k.toRepr m).getD .undef)
   | Option.none => .badKey
 
 /-- `Value::contains` (`needle in container`); `none` = "`in` cannot be used on a container of
 type …". -/
-def contains (H : List HashTok → Nat) (container needle : Value) : Option Bool :=
+def containsH (H : List HashTok → Nat) (container needle : Value) : Option Bool :=
   match container with
   | .arr xs => some (xs.any fun x => eqV x needle)
   | .str _ s =>
@@ -71,7 +71,7 @@ def contains (H : List HashTok → Nat) (container needle : Value) : Option Bool
     | .str _ n => some (isInfix n s)
     | _ => some false
   | .map m =>
-    match needle.asKey with
+    match needle.asKeyK with
     | some k => some (Map.hashGet H k.toRepr m).isSome
     | Option.none => some false
   | _ => Option.none
@@ -92,7 +92,7 @@ def isContaining (H : List HashTok → Nat) (val pat : Value) : ContainingRes :=
     | _ => .badPat
   | .arr xs => .ok (xs.any fun x => eqV x pat)
   | .map m =>
-    match pat.asKey with
+    match pat.asKeyK with
     | some k => .ok (Map.hashGet H k.toRepr m).isSome
     | Option.none => .ok false
   | _ => .notContainer
